@@ -59,7 +59,7 @@ nth_useful = W["next_nth_useful_token"]
 UP = "self.useful_pos(self.cursor_index as int)"
 LP = "self.lb_pos(self.cursor_index as int)"
 def facts(pos):
-    return ("(%s < self.cursor_limit ==> 1 <= len_at(self.src, LIM, %s) && %s + len_at(self.src, LIM, %s) <= self.cursor_limit && boundary(self.src, %s + len_at(self.src, LIM, %s)))" % ((pos,) * 6)).replace("LIM", LIM)
+    return ("(%s < self.cursor_limit ==> boundary(self.src, %s) && 1 <= len_at(self.src, LIM, %s) && %s + len_at(self.src, LIM, %s) <= self.cursor_limit && boundary(self.src, %s + len_at(self.src, LIM, %s)))" % ((pos,) * 7)).replace("LIM", LIM)
 nth_useful.ensures = nth_useful.ensures + [C("the_first_useful_token_or_the_end_token", "nth == 0 ==> res == self.tok(%s) && %s" % (UP, facts(UP)))]
 nth_useful.loops = {1: Loop(invariant=[
     C("scan", "self.inv() && self.cursor_index <= byte_index <= self.cursor_limit && (byte_index < self.cursor_limit ==> boundary(self.src, byte_index as int))"),
@@ -78,6 +78,18 @@ next_lb.attrs = ["#[verifier::exec_allows_no_decreases_clause]", "#[verifier::lo
 next_lb.inserts = []
 next_useful = Fn(FW, "next_useful_token", impl=WI, impl_header=WI, slot="syntax", ret="res", key="Walker::next_useful_token", props=["C05"],
     requires=[cw.INV_PRE], ensures=[C("the_first_useful_token_or_the_end_token", "res == self.tok(%s) && %s" % (UP, facts(UP)))])
+next_useful_index = Fn(FW, "next_useful_index", impl=WI, impl_header=WI, slot="syntax", ret="res", key="Walker::next_useful_index", props=["C07", "C03"],
+    requires=[cw.INV_PRE],
+    ensures=[C("where_the_next_useful_token_starts", "res == (if %s < self.cursor_limit { %s } else { self.cursor_limit as int }) && (res < self.cursor_limit ==> boundary(self.src, res as int))" % (UP, UP), ["C07"])],
+    inserts=[Insert("{", "\n        proof { lemma_stream_head(*self, self.cursor_index as int, 0); }\n", where="after", occ=1)])
+CH = "(if %s < self.cursor_limit { char_from(self.src, %s) } else { '\\0' })" % (UP, UP)
+OLDUP = UP.replace("self.", "old(self).")
+OLDCH = CH.replace("self.", "old(self).")
+maybe_expect_char = Fn(FW, "maybe_expect_char", impl=WI, impl_header=WI, slot="syntax", ret="res", key="Walker::maybe_expect_char", props=["C07", "C03"],
+    requires=[cw.INV_PRE_MUT, C("not_the_end_of_text_character", "!same_ignoring_ascii_case('\\0', wanted_char)", ["C03"])],
+    ensures=[cw.INV_POST,
+             C("takes_the_next_useful_character_ignoring_ascii_case", "res == same_ignoring_ascii_case(%s, wanted_char) && (if res { *final(self) == old(self).at((if %s < old(self).cursor_limit { %s } else { old(self).cursor_limit as int }) + %s.len_utf8()) } else { *final(self) == *old(self) })" % (OLDCH, OLDUP, OLDUP, OLDCH), ["C07"])],
+    inserts=[Insert("{", "\n        proof { lemma_stream_head(*self, self.cursor_index as int, 0); }\n", where="after", occ=1)])
 W["maybe_expect"].inserts = [Insert("{", "\n        proof { lemma_stream_head(*self, self.cursor_index as int, 0); let p = self.useful_pos(self.cursor_index as int); lemma_at(*self, self.step(p), self.step(p), 0); }\n", where="after", occ=1)]
 W["next_useful_is"].inserts = [Insert("{", "\n        proof { lemma_stream_head(*self, self.cursor_index as int, 0); }\n", where="after", occ=1)]
 W["maybe_expect_linebreak"].inserts = [Insert("{", "\n        proof { lemma_stream_head(*self, self.cursor_index as int, 0); lemma_stream_lb(*self, self.cursor_index as int, 0);"
@@ -90,7 +102,7 @@ UNIT = Unit(
     items=[Type(uc.FS, "struct", "Span", slot="diagn", derive="drop"), uc.span_new.in_slot("diagn"), uc.span_location.in_slot("diagn"), uc.span_length.in_slot("diagn"), r_error_span,
            Type(FT, "struct", "Token", slot="syntax", derive="drop"), Type(FT, "enum", "TokenKind", slot="syntax", derive="Clone, Copy"), is_ignorable, printable,
            Type(FW, "struct", "Walker", slot="syntax", derive="drop"), is_whitespace, char_at, token_at, lookahead,
-           is_over, idx_start, idx_end, advance, get_span, W["get_cursor_span"], nth_useful, next_useful, next_lb, W["next_useful_is"], W["maybe_expect"], W["expect"], W["maybe_expect_linebreak"]],
+           is_over, idx_start, idx_end, advance, get_span, W["get_cursor_span"], nth_useful, next_useful, next_useful_index, maybe_expect_char, next_lb, W["next_useful_is"], W["maybe_expect"], W["expect"], W["maybe_expect_linebreak"]],
     serves=["C05", "C13", "C07", "C03"],
     carry_facts_into_loops=False,
     description="syntax::Walker: the token-level operations refine the stream-of-useful-tokens model that U-parser assumes (tokenizer answers uninterpreted); find_lookahead_char_index (case-insensitive, outside brackets, character by character); spans are byte ranges of the file",
